@@ -26,3 +26,11 @@ J
 VERIF_REPO=$wt VERIF_KNOWN_FINDINGS=/tmp/wt/selftest_kf.json ./check C03 2>&1 | grep -E "^KNOWN-FINDING|^VIOLATION" | head -3; true
 VERIF_REPO=$wt ./check C03 > /tmp/wt/selftest.log 2>&1; echo "  exit without the listing: $? ($(grep -c '^VIOLATION' /tmp/wt/selftest.log) VIOLATION lines)"
 git -C /repo worktree remove --force $wt; rm -f /tmp/wt/selftest_kf.json /tmp/wt/selftest.log
+echo "== 3. the open finding of C05 is matched by INPUT: the same clause failing on another input is still a VIOLATION"
+wt=/tmp/wt/selftest; rm -rf $wt; git -C /repo worktree add -q $wt HEAD
+# tolerance=None treated like the default tolerance: every lossy removal with None is now refused
+(cd $wt && sed -i 's/        self.update(newknotvec, tolerance, knots)/        self.update(newknotvec, 1e-9 if tolerance is None else tolerance, knots)/' src/compmec/nurbs/curves.py && git diff --stat | tail -1)
+VERIF_REPO=$wt ./check C05 > /tmp/wt/selftest.log 2>&1; rc=$?
+echo "  exit $rc; KNOWN-FINDING lines: $(grep -c '^KNOWN-FINDING' /tmp/wt/selftest.log); VIOLATION lines: $(grep -c '^VIOLATION' /tmp/wt/selftest.log)"
+grep -E "^  \[" /tmp/wt/selftest.log | head -3
+git -C /repo worktree remove --force $wt; rm -f /tmp/wt/selftest.log
